@@ -278,8 +278,8 @@ TECHNIQUE = {
 PYPLAN = {
     "C19": {
         "script": "c19_py.py",
-        "quick": 24_000,
-        "thorough": 800_000,
+        "quick": 96_000,
+        "thorough": 1_600_000,
         "rule": "Python front end: example = arguments of one Python model constructor {Categorical, Uniform, QuantizedGaussian/Laplace/Cauchy, "
                 "Binomial, Bernoulli}, as a concrete model or as a model family whose parameters arrive with the coder call; hostile and valid "
                 "float tables / parameters / supports; oracle: any Python exception (incl. PanicException) = clean failure; an accepted model must "
